@@ -22,6 +22,7 @@ import (
 const Bufsiz = 2 // must match cmd/c10/bufsiz
 
 type cfg struct {
+	Refilter bool // after the stream: Refilter a stalled direct filtered subscription so that it emits more events than its buffer holds
 	Name    string
 	Tree    []hx.Spec
 	Stalled map[string]bool // node paths whose consumer / handler is stalled
@@ -31,6 +32,29 @@ type cfg struct {
 }
 
 // stream: versions increase; labels alternate so that a filtered clone (l=1) sees creates and deletes
+func (in *inst) finalObjs() []metav1.Object {
+	if in.c.K == 0 {
+		return nil
+	}
+	if in.c.Refilter {
+		var out []metav1.Object
+		for i := 1; i <= in.c.K; i++ {
+			out = append(out, hx.Pod("ns", fmt.Sprintf("o%d", i), fmt.Sprint(i), "l=1"))
+		}
+		return out
+	}
+	return []metav1.Object{hx.Pod("ns", "a", fmt.Sprint(in.c.K), "l=1")}
+}
+
+// objStream creates k distinct objects (so that a later Refilter has k membership changes to announce).
+func objStream(k int) []kcache.Event {
+	var out []kcache.Event
+	for i := 1; i <= k; i++ {
+		out = append(out, kcache.NewEvent(kcache.EventTypeCreate, hx.Pod("ns", fmt.Sprintf("o%d", i), fmt.Sprint(i), "l=1")))
+	}
+	return out
+}
+
 func stream(k int) []kcache.Event {
 	var out []kcache.Event
 	for i := 1; i <= k; i++ {
@@ -53,6 +77,7 @@ type inst struct {
 	healthy  int
 	finished bool
 	rootList, wantList string
+	clock    int64
 }
 
 func (in *inst) handler(n *hx.Node) kcache.Handler {
@@ -110,21 +135,39 @@ func (in *inst) run() {
 			<-r
 		}
 	})
-	for _, ev := range stream(in.c.K) {
+	evs := stream(in.c.K)
+	if in.c.Refilter {
+		evs = objStream(in.c.K)
+	}
+	for _, ev := range evs {
 		in.root.Publish(ev)
 		// flow control: every healthy consumer acknowledges before the next event
 		for i := 0; i < in.healthy; i++ {
 			<-in.acks
 		}
 	}
+	if in.c.Refilter {
+		// a stalled DIRECT filtered subscription is refiltered so that more events than its buffer holds are due:
+		// the call must return, a second one too, and its own cache must follow
+		hx.Walk(in.nodes, func(n *hx.Node) {
+			if n.FSub != nil && in.c.Stalled[n.Path] {
+				n.Refilter(hx.MkFilter(1)) // reject everything: one Delete per cached object
+				n.Refilter(hx.MkFilter(0)) // accept everything: one Create per parent object
+				n.Refilter(hx.MkFilter(0))
+				vs.SleepIdle(1)
+				fl, _ := n.Cache().List()
+				pl, _ := in.root.Cache.List()
+				if hx.ListString(fl) != hx.ListString(pl) {
+					vs.Fail("stalled filtered subscription's own cache is stale | %s holds %s after Refilter(Null), parent holds %s", n.Path, hx.ListString(fl), hx.ListString(pl))
+				}
+			}
+		})
+	}
+	in.clock = vs.ClockHere()
 	// caches stay current while consumers are stalled
 	l, _ := in.root.Cache.List()
 	in.rootList = hx.ListString(l)
-	if in.c.K > 0 {
-		in.wantList = "[" + hx.ObjString(hx.Pod("ns", "a", fmt.Sprint(in.c.K), "l=1")) + "]"
-	} else {
-		in.wantList = "[]"
-	}
+	in.wantList = hx.ListString(in.finalObjs())
 	in.finished = true
 	close(in.release)
 }
@@ -157,6 +200,9 @@ func (in *inst) check(r *vs.Result) []string {
 			}
 			return
 		}
+		if in.c.Refilter {
+			return // its stream also carries the refilter's own events; judged through its cache above
+		}
 		// stalled: an in-order subsequence of the published sequence, at least min(K, bufsiz) long
 		j := 0
 		for _, g := range got {
@@ -177,6 +223,9 @@ func (in *inst) check(r *vs.Result) []string {
 			msgs = append(msgs, fmt.Sprintf("stalled consumer lost events within its buffer | %s drained only %v of published %v (buffer %d)", n.Path, got, pub, Bufsiz))
 		}
 	})
+	if in.clock > 1 {
+		msgs = append(msgs, fmt.Sprintf("pipeline waits on a timer while a consumer is stalled | tree %s stalled %v: virtual time advanced to %dns during the stream although nothing in the fan-out path may wait for time", specs(in.c.Tree), keys(in.c.Stalled), in.clock))
+	}
 	if in.rootList != in.wantList {
 		msgs = append(msgs, fmt.Sprintf("cache not current | parent cache holds %s after the stream, expected %s", in.rootList, in.wantList))
 	}
@@ -258,6 +307,9 @@ func Property() runner.Property {
 				)
 			}
 			out = append(out, scenario(cfg{Name: "sub,sub", Tree: subsub, Stalled: st("0:sub"), K: 3, Mode: "S1"}))
+			fs := []hx.Spec{sp("fsub", 0), sp("sub", 0)}
+			out = append(out, scenario(cfg{Name: "fsub,sub+refilter", Tree: fs, Stalled: st("0:fsub"), K: 3, Refilter: true, Mode: "S2", Bound: 2}))
+			out = append(out, scenario(cfg{Name: "fsub,sub+refilter", Tree: fs, Stalled: st("0:fsub"), K: 5, Refilter: true, Mode: "S2", Bound: 1}))
 			if tier == "thorough" {
 				for _, k := range []int{4, 6} {
 					out = append(out,
